@@ -95,6 +95,15 @@ class C01(Prop):
             lines.append("ssdcat %s %d" % (gen.hexs(s), k))
             t = gen.grammar_stream(rng, pieces=2)
             lines.append("sbx %s %s %d" % (gen.hexs(gen.grammar_stream(rng, pieces=3)), gen.hexs(t), k))
+            # one input cut anywhere (inside a sequence, inside a character): drained, (for odd k: cloned,) extended, drained --
+            # everything yielded, concatenated, is Spec/Strip of the whole input
+            u = gen.grammar_stream(rng, pieces=rng.choice([2, 3, 5]), valid_utf8=bool(rng.randrange(4)))
+            if u:
+                cut = rng.randrange(0, len(u) + 1)
+                lines.append("sbxcat %s %s %d" % (gen.hexs(u[:cut]), gen.hexs(u[cut:]), k))
+            w = gen.utf8_text(rng, 2) + [0xF0, 0x9F, 0x98, 0x80] + gen.utf8_text(rng, 1) + [0xE2, 0x82, 0xAC]
+            cut = len(w) - rng.choice([1, 2, 4, 5, 6])
+            lines.append("sbxcat %s %s %d" % (gen.hexs(w[:cut]), gen.hexs(w[cut:]), rng.choice([1, 3, 0])))
         yield "partly-consumed-iterators", lines
 
     def observe(self, ctx, name, lines, results):
